@@ -318,7 +318,16 @@ def _export(d):
         if d['single']:
             obj.tessellate(vertex_spacing=d['s'])
         else:
+            from geomdl import tessellate as _tsl
+            if len(surfs) >= 2 and (d['s'] + d['sizes'][0][1]) % 2 == 0:
+                # the tessellation component set THROUGH the container: every element needs its own instance
+                obj.tessellator = _tsl.TriangularTessellate()
             obj.tessellate(vertex_spacing=d['s'], delta=d['update'])
+            if d['update'] and d['sizes'][0][0] % 2 == 0:
+                # the container mesh rebuilt with unchanged sampling (reset, tessellate again): ids start afresh
+                obj.vertices
+                obj.reset()
+                obj.tessellate(vertex_spacing=d['s'], delta=True)
         V = [[_f(x) for x in v.data] for v in obj.vertices]
         Fs = [list(f.data) for f in obj.faces]
         return V, Fs, dict(obj=obj, surfs=surfs, ids=[v.id for v in obj.vertices])
